@@ -273,8 +273,10 @@ myth_tls_key_allocator_alloc(myth_tls_key_allocator_t * s,
      creation and deletion are serialized by a spin lock */
   myth_spin_lock_body(&s->lock);
   myth_tls_key_entry_t * ke = s->free;
+  MYTH_VERIF_POINT(MVP_KEY_ALLOC_A);
   if (ke) {
     s->free = ke->next;
+    MYTH_VERIF_POINT(MVP_KEY_ALLOC_B);
     /* mark the key as used */
     ke->next = (myth_tls_key_entry_t *)-1;
     ke->destructor = destructor;
@@ -299,6 +301,7 @@ myth_tls_key_allocator_dealloc(myth_tls_key_allocator_t * s, int key) {
   myth_tls_destructor_fun_t f = ke->destructor;
   /* push the cell to the free list */
   ke->next = s->free;
+  MYTH_VERIF_POINT(MVP_KEY_FREE_A);
   s->free = ke;
   myth_spin_unlock_body(&s->lock);
   return f;
